@@ -11,7 +11,8 @@ the topic — deleting the topic's entry when it was the last key.
 `Inv` (a key is in a topic's list iff the key has some pair for that topic; both kinds of list duplicate-free) holds
 after every finite history of allow_key / remove_key calls, accepted or not, from the empty store (`run_inv`), hence
 `gen_key_allowed_iff_authorized`: the getter `is_key_allowed_for_topic` answers true exactly when some authorisation
-(topic, registry) of the key is currently recorded.
+(topic, registry) of the key is currently recorded. `run_bounded`: over every history no topic lists more than 50 keys
+and no key holds more than 20 pairs.
 Property theorems only.
 -/
 namespace OZ.Gen.Keys
@@ -351,6 +352,55 @@ theorem gen_key_allowed_iff_authorized (envr : Keys.Reads) (ops : List Op) (pk :
       ∃ r, (t, r) ∈ pairsOf (ops.foldl (step envr) emptyStore) ⟨pk, sc⟩ := by
   rw [is_key_allowed_for_topic_eq, ← (run_inv envr ops).two_way]
   simp
+
+/-! ### the documented limits over every history -/
+
+/-- at most `MAX_KEYS_PER_TOPIC` (50) keys per topic and `MAX_REGISTRIES_PER_KEY` (20) pairs per key -/
+def Bounded (st : Keys.Store) : Prop :=
+  (∀ t, (topicKeys st t).length ≤ 50) ∧ (∀ k, (pairsOf st k).length ≤ 20)
+
+theorem step_bounded (envr : Keys.Reads) {st : Keys.Store} (h : Bounded st) (op : Op) : Bounded (step envr st op) := by
+  cases op with
+  | allow pk reg sc t =>
+    rw [step_allow_eq]
+    split
+    · rename_i hc
+      refine ⟨fun t' => ?_, fun k' => ?_⟩
+      · rw [topicKeys_allowed]
+        split
+        · rename_i hn
+          have := hc.2.2.1
+          rcases this with hm | hl
+          · exact absurd hm hn.2
+          · simp only [List.length_append, List.length_cons, List.length_nil]; omega
+        · exact h.1 t'
+      · rw [pairsOf_allowed]
+        split
+        · have := hc.2.2.2.2
+          simp only [List.length_append, List.length_cons, List.length_nil]; omega
+        · exact h.2 k'
+    · exact h
+  | remove pk reg sc t =>
+    rw [step_remove_eq]
+    split
+    · refine ⟨fun t' => ?_, fun k' => ?_⟩
+      · rw [topicKeys_removed]
+        split
+        · exact Nat.le_trans (List.length_erase_le) (h.1 t)
+        · exact h.1 t'
+      · rw [pairsOf_removed]
+        split
+        · exact Nat.le_trans (List.length_erase_le) (h.2 _)
+        · exact h.2 k'
+    · exact h
+
+/-- **limits, every history**: no topic ever lists more than 50 keys, no key ever holds more than 20 pairs -/
+theorem run_bounded (envr : Keys.Reads) (ops : List Op) : Bounded (ops.foldl (step envr) emptyStore) := by
+  suffices ∀ st, Bounded st → Bounded (ops.foldl (step envr) st) from
+    this _ ⟨fun t => by simp [topicKeys, emptyStore], fun k => by simp [pairsOf, emptyStore]⟩
+  induction ops with
+  | nil => intro st h; exact h
+  | cons op r ih => intro st h; exact ih _ (step_bounded envr h op)
 
 /-- non-vacuity: allow then remove on the witness environment of C20GenKeys returns to the empty lists -/
 example : let st := [Op.allow [7] 4 0 1, Op.remove [7] 4 0 1].foldl (step envr0) emptyStore
